@@ -207,56 +207,6 @@ func c18CallOf(v ssa.Value, obj types.Object, idx int) ssa.CallInstruction {
 	return call
 }
 
-// c18CmpEdges scans fn for branches on "X == Y" / "X != Y" (negations folded) whose operands satisfy
-// match (in either order) and returns the edges on which the operands are equal, resp. different.
-func c18CmpEdges(fn *ssa.Function, match func(x, y ssa.Value) bool) (eq, ne []Edge) {
-	for _, b := range fn.Blocks {
-		ifi := blockIf(b)
-		if ifi == nil {
-			continue
-		}
-		a := condAtom(ifi.Cond)
-		if a.Op != token.EQL && a.Op != token.NEQ {
-			continue
-		}
-		if !match(a.X, a.Y) && !match(a.Y, a.X) {
-			continue
-		}
-		isEq := a.Op == token.EQL
-		if a.Neg {
-			isEq = !isEq
-		}
-		if isEq {
-			eq = append(eq, Edge{b, 0})
-			ne = append(ne, Edge{b, 1})
-		} else {
-			eq = append(eq, Edge{b, 1})
-			ne = append(ne, Edge{b, 0})
-		}
-	}
-	return
-}
-
-// c18MustPass: one obligation "every path from start to any of the targets passes a cut". start nil = entry.
-func (c *Ctx) c18MustPass(rule, construct string, fn *ssa.Function, start *Point, targets []Target, cuts *Cuts, n int, what string, pos token.Pos) bool {
-	if n == 0 {
-		c.Violate(rule, construct, fnName(fn)+" has no such check: "+what, pos)
-		return false
-	}
-	st := entryPoint(fn)
-	if start != nil {
-		st = *start
-	}
-	for _, t := range targets {
-		if p := findPath(st, t, cuts); p != nil {
-			c.Violate(rule, construct, "a path reaches "+c.Pos(t.Instr.Pos())+" without passing "+what, t.Instr.Pos(), c.describePath(p)...)
-			return false
-		}
-	}
-	c.Ok(rule, construct, "every path passes "+what, pos)
-	return true
-}
-
 func c18RetTargets(rs []RetPoint) []Target {
 	var out []Target
 	for _, r := range rs {
@@ -377,47 +327,6 @@ func c18LeafPatternProblems(pattern string) []string {
 	return uniq(probs)
 }
 
-// c18PhiLeaves flattens a value built from phis into (leaf value, block the leaf flows out of) pairs.
-type c18Leaf struct {
-	V    ssa.Value
-	From *ssa.BasicBlock
-}
-
-func c18PhiLeaves(v ssa.Value) []c18Leaf {
-	var out []c18Leaf
-	seen := map[*ssa.Phi]bool{}
-	var walk func(v ssa.Value, from *ssa.BasicBlock)
-	walk = func(v ssa.Value, from *ssa.BasicBlock) {
-		if phi, ok := v.(*ssa.Phi); ok {
-			if seen[phi] {
-				return
-			}
-			seen[phi] = true
-			for i, e := range phi.Edges {
-				walk(e, phi.Block().Preds[i])
-			}
-			return
-		}
-		out = append(out, c18Leaf{v, from})
-	}
-	walk(v, nil)
-	return out
-}
-
-// c18BlockNeedsEdges: block b is unreachable from fn's entry once any one of the edge groups is cut
-// (= every path to b passes an edge of every group). Returns the index of the first group that fails, or -1.
-func c18BlockNeeds(fn *ssa.Function, b *ssa.BasicBlock, groups [][]Edge) int {
-	if len(b.Instrs) == 0 {
-		return -1
-	}
-	for i, g := range groups {
-		if len(g) == 0 || findPath(entryPoint(fn), Target{Instr: b.Instrs[0]}, newCuts().AddEdges(g...)) != nil {
-			return i
-		}
-	}
-	return -1
-}
-
 // ---------------------------------------------------------------------------
 // defer-aware pairing: created => removed (C18-R4)
 //
@@ -432,8 +341,12 @@ func c18BlockNeeds(fn *ssa.Function, b *ssa.BasicBlock, groups [][]Edge) int {
 
 type c18State struct {
 	cells   map[*ssa.Alloc]ssa.Value
+	binds   map[ssa.Value]ssa.Value // parameters and results of helper calls executed on the path
+	stack   []*ssa.Function         // helper bodies being executed (innermost last)
 	defers  []*ssa.Defer
-	armed   bool // the success edge of the creating call has been passed
+	armed   bool               // the success edge of the creating call has been passed
+	root    map[ssa.Value]bool // origins of the receiver of the successful create call
+	name    map[ssa.Value]bool // origins of the name it created
 	removed bool
 	closed  bool
 	guessed bool // a branch on a tracked cell could not be decided (after arming)
@@ -445,6 +358,11 @@ func (s c18State) clone() c18State {
 	for k, v := range s.cells {
 		n.cells[k] = v
 	}
+	n.binds = make(map[ssa.Value]ssa.Value, len(s.binds))
+	for k, v := range s.binds {
+		n.binds[k] = v
+	}
+	n.stack = append([]*ssa.Function(nil), s.stack...)
 	n.defers = append([]*ssa.Defer(nil), s.defers...)
 	return n
 }
@@ -454,25 +372,40 @@ func (s c18State) key() string {
 	for k, v := range s.cells {
 		parts = append(parts, fmt.Sprintf("%p=%p", k, v))
 	}
+	for k, v := range s.binds {
+		parts = append(parts, fmt.Sprintf("b%p=%p", k, v))
+	}
+	for k := range s.root {
+		parts = append(parts, fmt.Sprintf("r%p", k))
+	}
+	for k := range s.name {
+		parts = append(parts, fmt.Sprintf("n%p", k))
+	}
 	sort.Strings(parts)
 	d := ""
 	for _, x := range s.defers {
 		d += fmt.Sprintf("%p,", x)
 	}
-	return fmt.Sprintf("%v|%v|%v|%v|%s|%s", s.armed, s.removed, s.closed, s.guessed, d, strings.Join(parts, ";"))
+	return fmt.Sprintf("%v|%v|%v|%v|%d|%s|%s", s.armed, s.removed, s.closed, s.guessed, len(s.stack), d, strings.Join(parts, ";"))
 }
 
 type c18Sim struct {
 	remove, close types.Object
-	root, name    map[ssa.Value]bool // origins of the receiver / name of the successful create call
-	arm           map[Edge]bool      // success edges of the create call
+	create        ssa.CallInstruction // the creating call (Mkdir): receiver and name are taken when its success edge is passed
+	arm           map[Edge]bool       // success edges of the create call
+	pkg           *types.Package      // helpers of this package are executed inline when they matter
+	matters       map[*ssa.Function]bool
 	steps         int
 	overflow      bool
 }
 
-// val resolves a value under the current cell contents.
+// val resolves a value under the current cell contents and helper bindings.
 func (s *c18Sim) val(st *c18State, v ssa.Value) ssa.Value {
-	for i := 0; i < 8; i++ {
+	for i := 0; i < 16; i++ {
+		if b, ok := st.binds[v]; ok && b != v {
+			v = b
+			continue
+		}
 		switch x := v.(type) {
 		case *ssa.ChangeType:
 			v = x.X
@@ -492,6 +425,52 @@ func (s *c18Sim) val(st *c18State, v ssa.Value) ssa.Value {
 	return v
 }
 
+// inline: the same-package helper called by in, when executing it can matter for the pairing (it
+// reaches the create / remove / close calls) and it is not already being executed.
+func (s *c18Sim) inline(st *c18State, in *ssa.Call) *ssa.Function {
+	g := calleeFn(in)
+	if g == nil || g.Blocks == nil || fnPkg(g) != s.pkg || len(g.Params) != len(in.Call.Args) || len(st.stack) >= InlineDepth {
+		return nil
+	}
+	for _, a := range st.stack {
+		if a == g {
+			return nil
+		}
+	}
+	if s.matters == nil {
+		s.matters = map[*ssa.Function]bool{}
+	}
+	var reach func(f *ssa.Function, d int) bool
+	reach = func(f *ssa.Function, d int) bool {
+		if m, ok := s.matters[f]; ok {
+			return m
+		}
+		s.matters[f] = false
+		res := false
+		for _, h := range withClosures(f) {
+			allInstrs(h, func(_ *ssa.BasicBlock, _ int, x ssa.Instruction) {
+				call, ok := x.(ssa.CallInstruction)
+				if !ok || res {
+					return
+				}
+				if o := calleeObj(call); o != nil && (types.Object(o) == s.remove || types.Object(o) == s.close || (s.create != nil && types.Object(o) == types.Object(calleeObj(s.create)))) {
+					res = true
+					return
+				}
+				if k := calleeFn(call); k != nil && k.Blocks != nil && fnPkg(k) == s.pkg && d < InlineDepth && reach(k, d+1) {
+					res = true
+				}
+			})
+		}
+		s.matters[f] = res
+		return res
+	}
+	if !reach(g, 0) {
+		return nil
+	}
+	return g
+}
+
 func (s *c18Sim) isCellLoad(v ssa.Value) bool {
 	if u, ok := v.(*ssa.UnOp); ok && u.Op == token.MUL {
 		return c18Cell(u.X) != nil
@@ -500,16 +479,29 @@ func (s *c18Sim) isCellLoad(v ssa.Value) bool {
 }
 
 func (s *c18Sim) is(st *c18State, v ssa.Value, set map[ssa.Value]bool) bool {
-	return c18AllIn(s.val(st, v), set)
+	return len(set) > 0 && c18AllIn(s.val(st, v), set)
 }
 
 // evalCond decides a branch condition: (value, known). guess is set when the condition reads a
 // tracked cell whose content is not known.
 func (s *c18Sim) evalCond(st *c18State, cond ssa.Value) (val, known, guess bool) {
+	return s.evalCondD(st, cond, 0)
+}
+
+func (s *c18Sim) evalCondD(st *c18State, cond ssa.Value, depth int) (val, known, guess bool) {
 	a := condAtom(cond)
 	if a.Op == token.ILLEGAL {
-		if b, ok := constBool(s.val(st, a.X)); ok {
+		r := s.val(st, a.X)
+		if b, ok := constBool(r); ok {
 			return b != a.Neg, true, false
+		}
+		if r != a.X && depth < 8 {
+			// a boolean handed to a helper (or kept in a variable): evaluate the expression it stands for
+			v, k, g := s.evalCondD(st, r, depth+1)
+			if k {
+				return v != a.Neg, true, false
+			}
+			return false, false, g || s.isCellLoad(a.X)
 		}
 		return false, false, s.isCellLoad(a.X)
 	}
@@ -553,7 +545,7 @@ func (s *c18Sim) equal(st *c18State, x, y ssa.Value) (eq, known bool) {
 		if isNilConst(y) {
 			return true, true
 		}
-		if st.armed && c18AllIn(y, s.root) {
+		if st.armed && len(st.root) > 0 && c18AllIn(y, st.root) {
 			return false, true // the root Mkdir succeeded on
 		}
 		return false, false
@@ -562,13 +554,13 @@ func (s *c18Sim) equal(st *c18State, x, y ssa.Value) (eq, known bool) {
 		if ys, ok := constString(y); ok {
 			return xs == ys, true
 		}
-		if xs == "" && st.armed && c18AllIn(y, s.name) {
+		if xs == "" && st.armed && len(st.name) > 0 && c18AllIn(y, st.name) {
 			return false, true // the name Mkdir accepted
 		}
 		return false, false
 	}
 	if ys, ok := constString(y); ok {
-		if ys == "" && st.armed && c18AllIn(x, s.name) {
+		if ys == "" && st.armed && len(st.name) > 0 && c18AllIn(x, st.name) {
 			return false, true
 		}
 		return false, false
@@ -615,6 +607,33 @@ func (s *c18Sim) run(fn *ssa.Function, b *ssa.BasicBlock, idx int, st c18State, 
 			st.defers = append(st.defers, in)
 		case *ssa.Go:
 		case *ssa.Call:
+			if g := s.inline(&st, in); g != nil {
+				// execute the helper's body; continue here after each of its returns
+				inner := st.clone()
+				for j, p := range g.Params {
+					inner.binds[p] = s.val(&st, in.Call.Args[j])
+				}
+				inner.stack = append(inner.stack, g)
+				inner.defers = nil
+				outer := st
+				rest := i + 1
+				s.run(g, g.Blocks[0], 0, inner, map[string]bool{}, path, func(e c18Exit) {
+					o := e.State.clone()
+					o.stack = o.stack[:len(outer.stack)]
+					o.defers = append([]*ssa.Defer(nil), outer.defers...)
+					if len(e.Ret.Results) == 1 {
+						o.binds[in] = s.val(&e.State, e.Ret.Results[0])
+					} else if refs := in.Referrers(); refs != nil {
+						for _, r := range *refs {
+							if ex, ok := r.(*ssa.Extract); ok && ex.Index < len(e.Ret.Results) {
+								o.binds[ex] = s.val(&e.State, e.Ret.Results[ex.Index])
+							}
+						}
+					}
+					s.run(fn, b, rest, o, seen, e.Path, out)
+				})
+				return
+			}
 			st = s.call(st, in)
 		case *ssa.RunDefers:
 			outs := []c18State{st}
@@ -652,6 +671,9 @@ func (s *c18Sim) run(fn *ssa.Function, b *ssa.BasicBlock, idx int, st c18State, 
 					// a (new) successful create: everything before is forgotten
 					n = n.clone()
 					n.armed, n.removed, n.closed, n.guessed = true, false, false, false
+					a := s.create.Common().Args
+					n.root = c18Set(c18Origins(s.val(&n, a[0]))...)
+					n.name = c18Set(c18Origins(s.val(&n, a[1]))...)
 					s.run(fn, succ, 0, n, seen, []*ssa.BasicBlock{b}, out)
 					continue
 				}
@@ -683,14 +705,14 @@ func (s *c18Sim) call(st c18State, in ssa.CallInstruction) c18State {
 	cc := in.Common()
 	o := calleeObj(in)
 	if o != nil && types.Object(o) == s.remove && len(cc.Args) >= 2 {
-		if st.armed && s.is(&st, cc.Args[0], s.root) && s.is(&st, cc.Args[1], s.name) && !st.closed {
+		if st.armed && s.is(&st, cc.Args[0], st.root) && s.is(&st, cc.Args[1], st.name) && !st.closed {
 			st = st.clone()
 			st.removed = true
 		}
 		return st
 	}
 	if o != nil && types.Object(o) == s.close && len(cc.Args) >= 1 {
-		if st.armed && s.is(&st, cc.Args[0], s.root) {
+		if st.armed && s.is(&st, cc.Args[0], st.root) {
 			st = st.clone()
 			st.closed = true
 		}
@@ -741,4 +763,101 @@ func (s *c18Sim) runDeferred(d *ssa.Defer, st c18State) []c18State {
 		return []c18State{st}
 	}
 	return c18Dedupe(outs)
+}
+
+// c18ValueSite: one way a value gets its content: the leaf value and the instruction at which it is
+// bound (the store into the variable, the first instruction of the predecessor a phi takes it from,
+// the return of a value helper).
+type c18ValueSite struct {
+	val c11LV
+	env *c11Env
+	at  ssa.Instruction // nil when the binding point is not known
+}
+
+// c18ValueSites flattens lv into its leaves together with the place each leaf is bound, through
+// phis, variable cells, parameters of followed helpers and results of followed helpers.
+func (c *Ctx) c18ValueSites(lv c11LV) []c18ValueSite {
+	var out []c18ValueSite
+	seen := map[c11LV]bool{}
+	first := func(b *ssa.BasicBlock) ssa.Instruction {
+		if b == nil || len(b.Instrs) == 0 {
+			return nil
+		}
+		return b.Instrs[len(b.Instrs)-1] // the jump out of the block: the whole block has executed
+	}
+	var walk func(lv c11LV, env *c11Env, at ssa.Instruction, d int)
+	walk = func(lv c11LV, env *c11Env, at ssa.Instruction, d int) {
+		if lv.V == nil || d > 40 {
+			return
+		}
+		switch x := lv.V.(type) {
+		case *ssa.Phi:
+			if seen[lv] {
+				return
+			}
+			seen[lv] = true
+			for i, e := range x.Edges {
+				walk(c11LV{e, lv.E}, lv.E, first(x.Block().Preds[i]), d+1)
+			}
+			return
+		case *ssa.ChangeType:
+			walk(c11LV{x.X, lv.E}, env, at, d+1)
+			return
+		case *ssa.Parameter:
+			if a := lv.E.arg(x); a != nil {
+				walk(c11LV{a, lv.E.parent}, lv.E.parent, lv.E.call, d+1)
+				return
+			}
+		case *ssa.UnOp:
+			if x.Op == token.MUL {
+				if cell := c18Cell(x.X); cell != nil {
+					if seen[lv] {
+						return
+					}
+					seen[lv] = true
+					ce := lv.E.envOf(cell.Parent())
+					n := 0
+					for _, st := range c18CellStores(cell) {
+						n++
+						if st.Parent() != ce.fn {
+							out = append(out, c18ValueSite{c11LV{st.Val, &c11Env{fn: st.Parent(), parent: ce}}, nil, nil})
+							continue
+						}
+						walk(c11LV{st.Val, ce}, ce, st, d+1)
+					}
+					if n > 0 {
+						return
+					}
+				}
+			}
+		case *ssa.Call, *ssa.Extract:
+			if call, idx := originCall(lv.V); call != nil {
+				if he := lv.E.enter(call); he != nil {
+					n := 0
+					for _, r := range c.successTargets(he.fn) {
+						if idx >= len(r.Ret.Results) {
+							continue
+						}
+						n++
+						v := r.Ret.Results[idx]
+						at := ssa.Instruction(r.Ret)
+						if phi, ok := v.(*ssa.Phi); ok && phi.Block() == r.Ret.Block() && r.Pred != nil {
+							for i, p := range phi.Block().Preds {
+								if p == r.Pred {
+									v, at = phi.Edges[i], first(p)
+								}
+							}
+						}
+						walk(c11LV{v, he}, he, at, d+1)
+					}
+					if n > 0 {
+						return
+					}
+				}
+			}
+		}
+		out = append(out, c18ValueSite{lv, env, at})
+	}
+	walk(lv, lv.E, nil, 0)
+	return out
 }
